@@ -2,7 +2,7 @@
    Directives in use: those of ExtrOcamlBasic (bool, option, unit, list, prod, sumbool, sumor, comparison as
    OCaml's own types) and nothing else; Z/positive/N/nat/string/ascii stay the extracted inductives. *)
 From Coq Require Import Extraction ExtrOcamlBasic ZArith String List.
-From TLX Require Import PyLib SuiteTypes SuiteParser SuiteTable Iana QuicPn Rfc9000.
+From TLX Require Import PyLib SuiteTypes SuiteParser SuiteTable Iana QuicPn Rfc9000 Varint QuicFrames FrameTable.
 
 Definition x_suite (c : Z) : option suite := split_cipher_suite table parts c.
 Definition x_denote (n : string) : option denotation := denote n.
@@ -11,4 +11,7 @@ Definition x_iana (c : Z) : option string := iana_name c.
 Definition x_full_pn := full_pn.
 Definition x_rfc_pn := decode_packet_number.
 Definition x_quic_nonce := quic_nonce.
-Extraction "model.ml" x_full_pn x_rfc_pn x_quic_nonce x_suite x_denote x_iana index from_be to_be Z.add Z.mul Z.div Z.modulo Z.eqb Z.ltb.
+Definition x_parse_frames := parse_frames frame_table.
+Definition x_varint := decode_variable_length_int.
+Definition x_varint_len := get_variable_length_int_length.
+Extraction "model.ml" x_parse_frames x_varint x_varint_len x_full_pn x_rfc_pn x_quic_nonce x_suite x_denote x_iana index from_be to_be Z.add Z.mul Z.div Z.modulo Z.eqb Z.ltb.
